@@ -349,8 +349,29 @@ sexp sexp_read_bignum (sexp ctx, sexp in, sexp_uint_t init,
   } else if (c=='/') {
     res = sexp_bignum_normalize(res);
     res = sexp_make_ratio(ctx, res, SEXP_ONE);
-    sexp_ratio_denominator(res) = sexp_read_number(ctx, in, base, 0);
-    res = sexp_ratio_normalize(ctx, res, in);
+    tmp = sexp_read_number(ctx, in, base, 0);
+#if SEXP_USE_COMPLEX
+    /* the denominator was read together with a complex tail: n/d+yi or n/di */
+    if (sexp_complexp(tmp) && sexp_exact_integerp(sexp_complex_real(tmp))
+        && (sexp_complex_real(tmp) != SEXP_ZERO
+            || sexp_exact_integerp(sexp_complex_imag(tmp)))) {
+      imag = tmp;
+      if (sexp_complex_real(imag) == SEXP_ZERO) {
+        sexp_ratio_denominator(res) = sexp_complex_imag(imag);
+        res = sexp_ratio_normalize(ctx, res, in);
+        if (!sexp_exceptionp(res)) sexp_complex_imag(imag) = res;
+      } else {
+        sexp_ratio_denominator(res) = sexp_complex_real(imag);
+        res = sexp_ratio_normalize(ctx, res, in);
+        if (!sexp_exceptionp(res)) sexp_complex_real(imag) = res;
+      }
+      if (!sexp_exceptionp(res)) res = imag;
+    } else
+#endif
+    {
+      sexp_ratio_denominator(res) = tmp;
+      res = sexp_ratio_normalize(ctx, res, in);
+    }
 #endif
 #if SEXP_USE_COMPLEX
   } else if (c=='i' || c=='i' || c=='+' || c=='-') {
